@@ -70,7 +70,7 @@ PROFILES = {
     "mixed": Profile("mixed", W()),
     "replay": Profile("replay", W(add=9, open=7, reconn=4, restart=2, longadv=1), napps=2, nmail=2),
     "fanout": Profile("fanout", W(add=10, open=8, conn=8, claim=2, alloc=0, release=1, restart=3, adv=5), napps=1, nsides=3, nmail=2, nnames=2, forged=True),
-    "claims": Profile("claims", W(claim=10, claim_open=2, release=5, close=4, add=1, open=2, restart=2, longadv=1), napps=2, nnames=3),
+    "claims": Profile("claims", W(claim=10, claim_open=2, release=5, close=4, add=1, open=2, restart=2, longadv=2, adv=6, reconn=5), napps=2, nnames=3),
     "crowd": Profile("crowd", W(claim=8, open=7, close=4, release=3, add=4, reconn=4, conn=8, alloc=0, longadv=2, adv=2), napps=1, nsides=4, nnames=1, nmail=1),
     "holders": Profile("holders", W(claim=9, release=7, list=4, close=3, alloc=3, open=2, add=1, restart=1), napps=1, nsides=2, nnames=3),
     "closers": Profile("closers", W(close=8, open=6, claim=5, claim_open=4, release=3, add=4, reconn=4, resend=3), napps=1, nsides=2, nnames=2, nmail=2),
